@@ -2,7 +2,7 @@
     Single-threaded cache: after EVERY operation of EVERY history (clauses wf_ec / wf_ws of the
     inductive invariant WF).  Concurrent cache (sequential regime): after every maintenance
     run that leaves nothing queued — see the sync section below. *)
-From MM Require Import Unsync.UInvDefs Unsync.UInv.
+From MM Require Import Unsync.UInvDefs Unsync.UInv Sync.SInvDefs Sync.SInvWrites Sync.SInvTop.
 
 Theorem C10_unsync_counters : forall c ops r outs, cfg_ok c -> N.of_nat (length ops) < 2 ^ 24 ->
   urun_ops c urun_init ops = Ok (r, outs) ->
@@ -15,8 +15,30 @@ Theorem C10_unsync_runs : forall c ops, cfg_ok c -> N.of_nat (length ops) < 2 ^ 
   exists r outs, urun_ops c urun_init ops = Ok (r, outs) /\ WF' c (ur_state r).
 Proof. exact urun_safe. Qed.
 
+(** concurrent cache: a maintenance run empties both queues, and whenever nothing is queued
+    entry_count = number of map entries = number of deque nodes, weighted_size = the
+    weigher's sum over the map; every map entry is admitted and every node belongs to the map
+    entry of its key (no ghosts, no orphans) *)
+Theorem C10_sync_maintenance_quiesces : forall c s now, scfg_ok c -> SInv c s -> s_small s ->
+  exists s', s_sync c s now = Ok s' /\ SInv c s' /\ quiescent s'.
+Proof. exact sync_quiescent. Qed.
+
+Theorem C10_sync_quiescent_counters : forall c s, SInv c s -> quiescent s ->
+  s_ec s = N.of_nat (size (s_map s)) /\ s_ec s = qlen (s_prob s) /\ s_ws s = s_map_weight c s /\
+  (forall k ve, s_map s !! k = Some ve -> si_admitted (get_info s (ve_info s ve)) = true) /\
+  (forall n nd, (n, nd) ∈ s_prob s -> map_has_info s (sa_key nd) (sa_info nd) = true).
+Proof. exact quiescent_counters. Qed.
+
+(** ... in every reachable state (all histories, sync placements, regimes) *)
+Theorem C10_sync_reachable : forall c ops, scfg_ok c -> N.of_nat (length ops) < 2 ^ 18 ->
+  exists r outs, srun_ops c srun_init ops = Ok (r, outs) /\ SInv c (sr_state r).
+Proof. exact srun_safe. Qed.
+
 Check C10_unsync_counters : forall c ops r outs, cfg_ok c -> N.of_nat (length ops) < 2 ^ 24 ->
   urun_ops c urun_init ops = Ok (r, outs) ->
   u_ec (ur_state r) = map_count (u_map (ur_state r)) /\ u_ws (ur_state r) = map_weight (u_map (ur_state r)).
 Print Assumptions C10_unsync_counters.
 Print Assumptions C10_unsync_runs.
+Print Assumptions C10_sync_maintenance_quiesces.
+Print Assumptions C10_sync_quiescent_counters.
+Print Assumptions C10_sync_reachable.
